@@ -82,6 +82,13 @@ func runC10Case(seed int64, idx int) *c10Result {
 	default:
 		t0 = int64(rng.Intn(1 << 20))
 	}
+	if container == "fmp4" && idx%7 == 3 {
+		// the 10 MHz time scale of Smooth-Streaming style packagers with base times around 2^40:
+		// base x clock rate does not fit 63 bits
+		t0 = (1 << 40) / 10000000
+		feats["timescale-10MHz"] = true
+		delete(feats, "base-2^40")
+	}
 	wrapAdj := int64(0)
 	if feats["wrap33"] {
 		// place the start a few samples before 2^33
@@ -89,6 +96,9 @@ func runC10Case(seed int64, idx int) *c10Result {
 	}
 	mkVideo := func() *origin.Track {
 		t := &origin.Track{Kind: media.H264, TimeScale: 90000, Params: testParamsH264, Base: t0*90000 + wrapAdj, SampleDur: 900, GOP: segSamples}
+		if feats["timescale-10MHz"] {
+			t.TimeScale, t.Base, t.SampleDur = 10000000, t0*10000000, 100000
+		}
 		if rng.Intn(3) == 0 {
 			t.PTSPat = []int64{2, 0, 1, 3}
 			feats["pts-offsets"] = true
